@@ -111,7 +111,7 @@ func NewCorpus(root, goverterBin string, convs []*Conv, perGroup int) (*Corpus, 
 	if err := os.MkdirAll(c.Dir, 0o755); err != nil {
 		return nil, err
 	}
-	if err := os.WriteFile(filepath.Join(c.Dir, "go.mod"), []byte("module "+corpusModule+"\n\ngo 1.22\n"), 0o644); err != nil {
+	if err := os.WriteFile(filepath.Join(c.Dir, "go.mod"), []byte("module "+corpusModule+"\n\ngo 1.21\n"), 0o644); err != nil {
 		return nil, err
 	}
 	// helper package for wrapErrorsUsing
@@ -312,7 +312,9 @@ func (c *Corpus) runGroup(group string) (string, error) {
 	args = append(args, "./"+group)
 	ctxT, cancel := context.WithTimeout(context.Background(), 90*time.Second)
 	defer cancel()
-	cmd := exec.CommandContext(ctxT, c.Goverter, args...)
+	// an address-space limit turns a generator that blows up in memory into a crash (fatal error: out of memory)
+	// instead of a machine that swaps: 4 GiB is far above what any corpus program needs (< 100 MiB)
+	cmd := exec.CommandContext(ctxT, "sh", append([]string{"-c", "ulimit -v 4194304 2>/dev/null; exec \"$0\" \"$@\"", c.Goverter}, args...)...)
 	cmd.Dir = c.Dir
 	cmd.Env = append(os.Environ(), "GOFLAGS=-mod=mod", "GOPROXY=off", "GOSUMDB=off", "GOTOOLCHAIN=local")
 	var out bytes.Buffer
